@@ -1,0 +1,11 @@
+//go:build !verif
+
+package server
+
+// verifPoint marks a suspension point used by the runtime monitors in the
+// `verif` build. Without the tag it is an empty, inlinable function.
+func verifPoint(string) {}
+
+// verifWrapStart lets the `verif` build insert a suspension point before a
+// job's start function runs. Without the tag it returns the function unchanged.
+func verifWrapStart(start func()) func() { return start }
